@@ -3,6 +3,44 @@ import importlib, json, os
 from . import core
 
 ALL = ["C%02d" % i for i in range(1, 37)]
+TECH = {
+ "C01": "property-based testing (Hypothesis): differential against an exact brute-force Markov-chain oracle (sparse linear algebra on periodic supercells, 1/N extrapolation)",
+ "C02": "property-based testing (Hypothesis): differential against a full-state-space reference (two independent forms cross-checked)",
+ "C03": "property-based testing (Hypothesis): validity predicates (symmetry, group invariance, positive semidefiniteness) over generated crystals and extreme data",
+ "C04": "property-based testing (Hypothesis): metamorphic relations (reference shifts, co-scalings, rate scaling, symmetry-preserving displacements)",
+ "C05": "property-based testing (Hypothesis): metamorphic monotonicity relation (lower one transition state, compare tensors in matrix order)",
+ "C06": "property-based testing (Hypothesis): algebraic identities of the tracer limit, integration accuracy decided by mesh refinement",
+ "C07": "property-based testing (Hypothesis): differential between two thermodynamic ranges fed the same tag data",
+ "C08": "property-based testing (Hypothesis): differential between the two omega2 algorithms plus boundedness/continuity predicates over a rate ladder",
+ "C09": "property-based testing (Hypothesis): metamorphic relation between equivalent crystal descriptions, data carried by Cartesian matching",
+ "C10": "property-based testing (Hypothesis): residual of the lattice diffusion equation, symmetry and scaling relations, far-field asymptote; accuracy by mesh refinement",
+ "C11": "property-based testing (Hypothesis): differential against finite differences of an exact reference and own symmetry projection of dipoles",
+ "C12": "property-based testing (Hypothesis): spectral comparison with an own rate matrix and a sum-rule invariant",
+ "C13": "property-based testing (Hypothesis): round-trip oracle over generated objects and save/reload histories (in-memory HDF5, YAML)",
+ "C14": "stateful property-based testing (Hypothesis-generated operation histories) against a pristine reference calculator",
+ "C15": "property-based testing (Hypothesis): tags parsed back to geometry and classified by a brute-force orbit oracle; exact comparison of parameter sets and reports",
+ "C16": "property-based testing (Hypothesis) with an independent series evaluator; bounded-exhaustive checks of all index tables",
+ "C17": "property-based testing (Hypothesis): evaluation-level oracle for change of variables and order-by-order inverse identity",
+ "C18": "property-based testing (Hypothesis): brute-force geometric soundness of every operation and group axioms over generated crystals, spins, strains",
+ "C19": "property-based testing (Hypothesis): invariants of the reduced cell against a brute-force primitive-cell oracle over generated supercell descriptions",
+ "C20": "property-based testing (Hypothesis) against a brute-force space group + bounded-exhaustive enumeration of all subgroups of the holohedries",
+ "C21": "property-based testing (Hypothesis): differential against brute-force jump enumeration with the documented obstruction rule",
+ "C22": "property-based testing (Hypothesis): Brillouin-zone membership and exact averaging of generated invariant functions (full mesh vs reduced mesh vs closed form)",
+ "C23": "property-based testing (Hypothesis): round trips and agreement of all symmetry-action routes with an own affine map",
+ "C24": "property-based testing (Hypothesis): differential against a brute-force BFS/orbit oracle for pair states",
+ "C25": "property-based testing (Hypothesis): orthonormality/equivariance/completeness predicates and differential against directly assembled projected matrices",
+ "C26": "property-based testing (Hypothesis): differential against brute-force lists of swing jumps and exchanges and their orbits",
+ "C27": "property-based testing (Hypothesis): model-based oracle (own permutation model), existence decided by brute force over all operations",
+ "C28": "stateful/model-based property-based testing (Hypothesis histories against a dictionary model) + bounded-exhaustive operation sequences",
+ "C29": "property-based testing (Hypothesis): defects located by plain geometry in generated setup supercells; mappings applied by hand",
+ "C30": "property-based testing (Hypothesis): archive re-read, POSCAR round trip, bundled perl script executed, Makefile prerequisite closure",
+ "C31": "property-based testing (Hypothesis): differential against brute-force cluster enumeration modulo translation, geometric identity probes",
+ "C32": "property-based testing (Hypothesis) + exhaustive enumeration of all occupations of small supercells against a brute-force energy",
+ "C33": "stateful property-based testing (Hypothesis histories) + exhaustive reachable-state exploration against freshly started samplers",
+ "C34": "property-based testing (Hypothesis) + exhaustive small supercells: detailed-balance relation checked on harness-built final configurations",
+ "C35": "stateful differential testing (Hypothesis histories, compiled vs reference sampler in lockstep) + bounded-exhaustive histories",
+ "C36": "property-based testing (Hypothesis): algebraic laws (equivalence relation, hash consistency, pair-state identities) over pools of equal/near-equal/different values",
+}
 PENDING_REASON = "check not built yet in this revision of /verif (work in progress; see DESIGN.md section 4 for the plan)"
 
 
@@ -28,7 +66,7 @@ def main():
                               "text": getattr(mod, "LEVEL_TEXT", "Generated-input search (Hypothesis) against an explicit oracle: " + mod.RULE[:400]),
                               "design_ref": "DESIGN.md section 4, %s" % pid},
             "level_note": getattr(mod, "LEVEL_NOTE", "; ".join(getattr(mod, "ASSUMPTIONS", [])) or "oracle code under /verif/vp/oracles is trusted; finite sample of an infinite input space"),
-            "technique": getattr(mod, "TECHNIQUE", "property-based testing (Hypothesis) with an independent brute-force oracle"),
+            "technique": getattr(mod, "TECHNIQUE", TECH.get(pid, "property-based testing (Hypothesis) with an independent brute-force oracle")),
         })
     man = {
         "version": 1,
